@@ -417,3 +417,36 @@ Definition rcase_signature (c : rcase) : N * N * N * N * N * N * N :=
    N.of_nat (List.length (filter (fun o => match o with Some _ => true | None => false end) named)),
    N.of_nat (List.length (filter (fun o => match o with Some _ => false | None => true end) named)),
    count_distinct plans, N.of_nat (List.length ruled)).
+
+(* ------------------------------------------------------------------------------------------------ *)
+(* concurrent lazy initialisation of an upstream                                                      *)
+(* ------------------------------------------------------------------------------------------------ *)
+Record icase := {
+  ic_n : nat;
+  ic_order : list nat;                       (* tickets in the order the callers are let go *)
+  ic_impl : list (bool * N * N) }.           (* per caller in completion order (+ the late one): registered, index, verdict *)
+
+(* the harness's schedule: everybody loads and builds (in ticket order), then one caller after the other finishes *)
+Definition ic_sched (c : icase) : list nat :=
+  flat_map (fun t => [t; t]) (seq 0 (ic_n c)) ++ flat_map (fun t => repeat t 8) (ic_order c) ++ repeat (ic_n c) 8.
+Definition ic_registered (g : istate) (t : nat) : bool :=
+  match t_done (g_thr g t) with
+  | Some (Some w) => existsb (Nat.eqb w) (g_regd g)
+  | _ => false
+  end.
+(* error codes (caller position, code): 61 registered impl<>model   62 impl<>spec: a caller's upstream is not registered
+   under the tag's index 1, or an answer from it is not decided by `upstream(u1) -> reject`   63 model<>spec *)
+Definition check_icase (prog : list iop) (c : icase) : list (N * N) :=
+  let g := irun (iinit prog) (ic_sched c) in
+  let callers := ic_order c ++ [ic_n c] in
+  let fix go (ts : list nat) (im : list (bool * N * N)) (n : N) : list (N * N) :=
+      match ts, im with
+      | [], [] => []
+      | t :: ts', (reg, idx, verdict) :: im' =>
+        (if Bool.eqb (ic_registered g t) reg then [] else [(n, 61)])
+        ++ (if reg && (idx =? 1) && (verdict =? 0xFD) then [] else [(n, 62)])
+        ++ (if ic_registered g t then [] else [(n, 63)])
+        ++ go ts' im' (n + 1)
+      | _, _ => [(n, 61)]
+      end in
+  go callers (ic_impl c) 0.
